@@ -28,6 +28,11 @@ KERNEL_SRC = [
 ]
 SIM_SRC = ["sim/sim.cpp", "sim/interpose.cpp"]
 GUARD_SRC = ["sim/guard_alloc.cpp"]   # "guard" flavour only: no sanitizers, guard-zone operator new/delete
+# "race" flavour: harness and library are compiled with the thread-sanitizer instrumentation, the runtime is this file
+# (a happens-before detector on the simulator's vector clocks) instead of libtsan; simulator sources stay uninstrumented
+RACE_SRC = ["sim/race_rt.cpp"]
+RACE_INSTR = ["-fsanitize=thread"]
+RACE_LINK = ["-Wl,--wrap=free", "-Wl,--wrap=__cxa_guard_acquire", "-Wl,--wrap=__cxa_guard_release"]
 SIMMPI_SRC = ["simmpi/simmpi.cpp"]
 
 # name -> (config, [harness sources], uses_simmpi)
@@ -54,7 +59,7 @@ TARGETS = {
 }
 GUARD_TARGETS = ["c11_mesh.guard", "c11_pmap.guard", "c05_streams.guard"]
 PROPERTY_TARGETS = {
-    "C17": ["c17_fence", "c17_asm"],
+    "C17": ["c17_fence", "c17_asm", "c17_asm.race"],
     "C12": ["c12_domain"],
     "C13": ["c13_scalar", "c13_app", "c13_app_neumann", "c13_q2", "c13_dg", "c13_blocked", "c13_stokes", "c13_tm", "c13_stokes_crrt", "c13_stokes_mg"],
     "C05": ["c05_streams", "c05_checkpoint", "c05_streams.guard", "c05_meta"],
@@ -100,6 +105,8 @@ def flags_for(kind, flavour, simmpi):
         inc.append("-I" + os.path.join(VERIF, "simmpi", "include"))
     inc.append("-I" + REPO)
     extra = ['-DSIM_FLAVOUR_GUARD'] if flavour == 'guard' else []
+    if flavour == "race":
+        extra.append("-DSIM_FLAVOUR_RACE")
     if kind == "mpi_tm":
         extra.append("-DSIM_MAX_TASKS=4096")   # one helper thread per scalar reduction and rank
     return COMMON + (SAN if flavour == "san" else FAST) + extra + inc
@@ -159,18 +166,24 @@ def build(targets, flavours=("san",), jobs=16):
                 srcs += [os.path.join(VERIF, s) for s in SIMMPI_SRC]
             if fl == "guard":
                 srcs += [os.path.join(VERIF, s) for s in GUARD_SRC]
+            if fl == "race":
+                srcs += [os.path.join(VERIF, s) for s in RACE_SRC]
             plan.append((t, fl, flags, srcs))
     rebuilt = 0
     with ThreadPoolExecutor(max_workers=jobs) as ex:
+        def src_flags(fl, flags, s):
+            if fl == "race" and not s.startswith(os.path.join(VERIF, "sim") + os.sep):
+                return flags + RACE_INSTR
+            return flags
         for t, fl, flags, srcs in plan:
             for s in srcs:
-                k = (s, tuple(flags))
+                k = (s, tuple(src_flags(fl, flags, s)))
                 if k not in work:
-                    work[k] = ex.submit(compile_obj, s, flags)
+                    work[k] = ex.submit(compile_obj, s, list(k[1]))
         for t, fl, flags, srcs in plan:
             objs = []
             for s in srcs:
-                obj, rb, dt = work[(s, tuple(flags))].result()
+                obj, rb, dt = work[(s, tuple(src_flags(fl, flags, s)))].result()
                 objs.append(obj)
                 if rb:
                     rebuilt += 1
@@ -179,7 +192,7 @@ def build(targets, flavours=("san",), jobs=16):
             sig = "\n".join(objs)
             if os.path.exists(binp) and os.path.exists(stamp) and open(stamp).read() == sig:
                 continue
-            link = [CXX] + (SAN if fl == "san" else FAST) + ["-rdynamic", "-pthread"] + objs + ["-o", binp + ".tmp", "-ldl"]
+            link = [CXX] + (SAN if fl == "san" else FAST) + ["-rdynamic", "-pthread"] + (RACE_LINK if fl == "race" else []) + objs + ["-o", binp + ".tmp", "-ldl"]
             r = subprocess.run(link, stdout=subprocess.PIPE, stderr=subprocess.PIPE)
             if r.returncode != 0:
                 raise RuntimeError("link failed: %s\n%s" % (t, r.stderr.decode()[-8000:]))
